@@ -423,6 +423,12 @@ def _mask(ctx) -> None:
     ctx.ob("d.dispatch-exhaustive", tg, "row-bounds", bounded, "t[i]: IndexError unless -len(t) <= i < len(t), before Row(self, i)", tg.node,
            message="Table.__getitem__(int) makes Row(self, key) without comparing the position with the row count: t[99] returns a hollow Row "
                    "that only fails when a cell is read")
+    exact_probs = row_bounds_exact(prog)
+    if exact_probs is None:
+        raise AnalysisError("Table.__getitem__: the row-bounds condition is outside the integer-comparison fragment")
+    ctx.ob("d.dispatch-exhaustive", tg, "row-bounds-exact", bool(idx_err) and not exact_probs,
+           "the IndexError condition is exactly `not -len(t) <= i < len(t)` (evaluated for len 3, i in -5..5)", tg.node,
+           message="Table.__getitem__(int): the row position is compared with the wrong bounds: " + "; ".join(exact_probs[:3]))
     # an operand that IS the receiver (t == t, v[v]) is duplicated with copy(), never with copy.deepcopy (deepcopy of a Table
     # probes the half-built copy through Table.__getattr__ and never terminates)
     cd = prog.func("vector.Vector._check_duplicate")
@@ -467,6 +473,19 @@ def _mask(ctx) -> None:
             if not guarded:
                 tprobs.append("in the row-wise form a None entry of the sequence is compared with the row as a scalar: t != [None, 2] is True "
                               "in the None row where column != sequence is False")
+            else:
+                # the all-False row standing in for a None entry has one cell per COLUMN (it is transposed with the other rows)
+                widths = (("call", ("name", "len"), (("call", ("attr", CS, "cols"), (), ()),), ()),
+                          ("call", ("name", "len"), (("attr", CS, "_underlying"),), ()))
+                from ..symx import deep_subterms as _deep2
+                for x in _deep2(ci2, e.value):
+                    if x[0] == "bin" and x[1] == "Mult":
+                        for lst, k_ in ((x[2], x[3]), (x[3], x[2])):
+                            if lst[0] == "obj" and ci2.objs[lst[1]].kind == "list" and ci2.objs[lst[1]].init == (("const", "bool", False),):
+                                if k_ not in widths:
+                                    tprobs.append(f"the all-False row standing in for a None entry has `{show(k_, ci2)[:40]}` cells, not one per "
+                                                  f"column: on a table whose row count differs from its column count the result is not a "
+                                                  f"table of boolean columns")
     ctx.ob("d.dispatch-exhaustive", tc, "table-compare-forms", not tprobs and col_pair >= 1 and row_pair >= 1,
            f"{col_pair} column-wise form(s) guarded by 2-D-ness, {row_pair} row-wise form(s) keeping None rows False", tc.node,
            message="Table._elementwise_compare: " + ("; ".join(tprobs) or "column-wise / row-wise forms not found"))
@@ -579,6 +598,74 @@ def _missing(ctx) -> None:
     probs += [f"the loop over the requested names can be left early by `{short(s, 40)}`" for s in early + brk]
     ctx.ob("d.must-append", f, "exact-first", not probs, "per requested name the exact stored-name scan comes first and yields a copy", lp,
            message="; ".join(p if isinstance(p, str) else p[0] for p in probs))
+
+
+def row_bounds_exact(prog):
+    """problems of Table.__getitem__(int)'s IndexError condition against `not -len(t) <= i < len(t)` (None: not decidable here)"""
+    from ..sites2 import interp_of as _iof
+    from ..symx import subterms
+    tg = prog.func("table.Table.__getitem__")
+    ti = _iof(prog, tg)
+    TSELF, TKEY = ("param", tg.params[0]), ("param", tg.params[1])
+    ln = ("call", ("name", "len"), (TSELF,), ())
+    idx_err = [e for e in ti.events if e.kind == "raise" and e.term[0] == "call" and e.term[1] == ("name", "IndexError")]
+    if not idx_err:
+        return ["no IndexError is raised for a row position outside the table"]
+    # ... and the comparison is EXACT: evaluated for a table of 3 rows, the IndexError is raised for the positions -5..5 outside
+    # [-3, 3) and for no other (t[-len(t)] is the first row, t[len(t)] does not exist)
+    def ev_int(t, env):
+        if t in env:
+            return env[t]
+        if t[0] == "const" and isinstance(t[2], int):
+            return t[2]
+        if t[0] == "un" and t[1] == "USub":
+            v = ev_int(t[2], env)
+            return None if v is None else -v
+        if t[0] == "bin" and t[1] in ("Add", "Sub"):
+            a_, b_ = ev_int(t[2], env), ev_int(t[3], env)
+            return None if a_ is None or b_ is None else (a_ + b_ if t[1] == "Add" else a_ - b_)
+        return None
+
+    def ev_bool(t, env):
+        if t[0] == "bool":
+            vs = [ev_bool(x, env) for x in t[2]]
+            if any(v is None for v in vs):
+                return None
+            return all(vs) if t[1] == "and" else any(vs)
+        if t[0] == "un" and t[1] == "Not":
+            v = ev_bool(t[2], env)
+            return None if v is None else not v
+        if t[0] == "cmp" and t[1] in ("Lt", "LtE", "Gt", "GtE", "Eq", "NotEq"):
+            a_, b_ = ev_int(t[2], env), ev_int(t[3], env)
+            if a_ is None or b_ is None:
+                return None
+            return {"Lt": a_ < b_, "LtE": a_ <= b_, "Gt": a_ > b_, "GtE": a_ >= b_, "Eq": a_ == b_, "NotEq": a_ != b_}[t[1]]
+        return None
+    exact_probs = []
+    keys_ = (TKEY, ("call", ("attr", TSELF, "_check_duplicate"), (TKEY,), ()))
+    for x in idx_err:
+        if not x.conds:
+            continue
+        c, pol = x.conds[-1]
+        if not any(any(k == y for y in subterms(c)) for k in keys_):
+            continue
+        for kv in range(-5, 6):
+            env = {ln: 3, ("attr", TSELF, "_length"): 3}
+            for k in keys_:
+                env[k] = kv
+            # local names bound to the row count (n_rows = len(self)) appear as the count itself in the terms
+            r = ev_bool(c, env)
+            if r is None:
+                exact_probs = None
+                break
+            raised = r if pol else not r
+            if raised != (not -3 <= kv < 3):
+                exact_probs.append(f"t[{kv}] on a table of 3 rows: IndexError {'raised' if raised else 'not raised'}")
+        if exact_probs is None:
+            break
+    if exact_probs is None:
+        return None
+    return exact_probs
 
 
 def _name_forms(prog):
